@@ -736,20 +736,32 @@ func (cv *Conv) Exec(e *Edge) (divs []evid.Div, fatal error) {
 				chk("lineLimit", s.LineLimit, MaxLine)
 			}
 			if len(diffs) > 0 {
-				prop := "C03"
 				j := strings.Join(diffs, " ")
-				switch {
-				case e.Lbl.Cmd.C == "STARTTLS" || strings.Contains(j, "tls="):
-					prop = "C10"
-				case strings.Contains(j, "didAuth"):
-					prop = "C09"
-				case strings.Contains(j, "errCount") || strings.Contains(j, "lineLimit"):
-					prop = "C19"
-				case strings.Contains(j, "bytes="):
-					prop = "C06" // the size accounting of the chunked transfer
+				// every field belongs to a property; a step may break several
+				props := map[string]bool{}
+				for _, d := range diffs {
+					switch name := d[:strings.IndexByte(d, '=')]; name {
+					case "tls":
+						props["C10"] = true
+					case "didAuth":
+						props["C09"] = true
+					case "errCount", "lineLimit":
+						props["C19"] = true
+					case "bytes":
+						props["C06"] = true // the size accounting of the chunked transfer
+					default: // greeting, session, envelope, transfer
+						props["C03"] = true
+					}
 				}
-				divs = append(divs, evid.Div{Prop: prop, Key: fmt.Sprintf("state:%s:%s", e.Lbl.Cmd.String(), srcClass(e)),
-					Msg: fmt.Sprintf("%s: connection state after the step differs: %s", ctx, j), Replay: rp()})
+				if e.Lbl.Cmd.C == "STARTTLS" {
+					props["C10"] = true // nothing learned in plaintext survives the upgrade
+				}
+				for _, prop := range []string{"C03", "C06", "C09", "C10", "C19"} {
+					if props[prop] {
+						divs = append(divs, evid.Div{Prop: prop, Key: fmt.Sprintf("state:%s:%s", e.Lbl.Cmd.String(), srcClass(e)),
+							Msg: fmt.Sprintf("%s: connection state after the step differs: %s", ctx, j), Replay: rp()})
+					}
+				}
 			}
 		}
 	}
